@@ -34,6 +34,12 @@ C15-K5 … K14).  With `cfg.ext = false` (the phase-1 model, `Cfg.core`) those l
 the model says which class is called with which bytes and nothing about what that class does.  A TCP segment with the MPTCP
 option is foreign in both.  `pack()` / `str()` of the phase-2 classes are not modelled.
 
+Phase 3 (`cfg.fix : Fix`): each registered raise has a proposed repair (fixes/C15-K<n>_*.diff).  `Fix` says which of them the
+tree has; at a repaired site the model does what the patch does (`raiseOr`): the NDP walkers raise `TruncatedException`, which the
+message class catches (options dropped, or — K5, K8 — the object keeps its constructor defaults); ipv6 / gre / igmp give up and
+the object stays unparsed; an IGMPv3 source list ends where the buffer does; a BOOTP message gets an empty `options`.
+`Cfg.repaired = Cfg.repairedWith Fix.none` is HEAD, `Cfg.fixed` has all repairs.  harness/c15.py reads `Fix` off the source.
+
 Python anchors: ethernet.py:110-138, vlan.py:66-82, llc.py:63-127, arp.py:80-125, ipv4.py:92-173, udp.py:76-119,
 tcp.py:580-648, icmp.py:103-319, lldp.py:108-200 (`next_tlv`, `parse`), 236-262 (`simple_tlv.parse/pack`), 340-530 (TLV bodies),
 packet_base.py:97-133 (`__str__`, `dump`), 192-209 (`pack`); phase 2: mpls.py:60-86, eapol.py:83-101, eap.py:153-186,
